@@ -7,6 +7,7 @@ import (
 	"fmt"
 	"os"
 	"runtime"
+	"strings"
 	"sync"
 	"sync/atomic"
 	"testing"
@@ -426,9 +427,36 @@ func TestRaceAndAtomicSwitch(t *testing.T) {
 			select {
 			case <-done:
 			case <-time.After(60 * time.Second):
-				buf := make([]byte, 1<<20)
-				n := runtime.Stack(buf, true)
-				fmt.Printf("INCONCLUSIVE: C15 watchdog expired after 60 s waiting for %s (possible deadlock); goroutines:\n%s\n", what, buf[:n])
+				// A deadlock, as opposed to a slow machine: the same goroutines are parked on the same lock acquisitions inside
+				// the library in two dumps taken 30 s apart, and no request or rule load completed in between.
+				parked := func() (map[string]string, string) {
+					buf := make([]byte, 4<<20)
+					dump := string(buf[:runtime.Stack(buf, true)])
+					out := map[string]string{}
+					for _, g := range strings.Split(dump, "\n\n") {
+						lines := strings.Split(g, "\n")
+						if (strings.Contains(lines[0], "[sync.") || strings.Contains(lines[0], "[semacquire")) && strings.Contains(g, "sentinel-golang/core/") {
+							out[strings.SplitN(lines[0], " [", 2)[0]] = strings.Join(lines[1:minInt(len(lines), 9)], " | ") // the frames, not the header (it grows a wait time)
+						}
+					}
+					return out, dump
+				}
+				p1, _ := parked()
+				before := atomic.LoadInt64(&swaps) + atomic.LoadInt64(&swRequests)
+				time.Sleep(30 * time.Second)
+				p2, dump := parked()
+				still := ""
+				for id, frames := range p1 {
+					if p2[id] == frames {
+						still = frames
+					}
+				}
+				if still != "" && atomic.LoadInt64(&swaps)+atomic.LoadInt64(&swRequests) == before {
+					fmt.Printf("DEADLOCK: %s did not finish within 90 s; no request or rule load completed during the last 30 s and %d goroutine(s) stayed parked on the same lock acquisition inside the library, e.g. %s\n", what, len(p2), still)
+					fmt.Printf("all goroutines:\n%s\n", dump)
+					os.Exit(4)
+				}
+				fmt.Printf("INCONCLUSIVE: C15 watchdog expired after 90 s waiting for %s, but the goroutines are not stuck on library locks (slow machine?); goroutines:\n%s\n", what, dump)
 				os.Exit(3)
 			}
 		}
@@ -450,4 +478,11 @@ func TestRaceAndAtomicSwitch(t *testing.T) {
 			c.Class("swap-while-request-in-flight")
 		}
 	})
+}
+
+func minInt(a, b int) int {
+	if a < b {
+		return a
+	}
+	return b
 }
